@@ -362,7 +362,7 @@ package httpgrpc
 //@   assert_call[C11,C02] writeProtoMessage : is_the_final_frame_of_this_reply: arg0 == w && arg1 == lastresult(getStreamingCodec) && arg3 && typeis(arg2, "*HttpTrailer") && unbox(arg2, "*HttpTrailer") == &tr
 //@   assert_call[C02] writeProtoMessage : success_has_code_zero: err == nil ==> tr.Code == 0
 //@   assert_call[C02] writeProtoMessage : failure_has_nonzero_code: err != nil ==> tr.Code != 0
-//@   assert_call[C02] writeProtoMessage : failure_carries_the_handlers_status: err != nil && is_status_err(err) && 0 < err_status_code(err) && err_status_code(err) <= 2147483647 ==> tr.Code == err_status_code(err) && tr.Message == err_status_msg(err) && tr.Details == err_status_details(err)
+//@   assert_call[C02] writeProtoMessage : failure_carries_the_handlers_status: err != nil && is_status_err(err) && 0 < err_status_code(err) && err_status_code(err) <= 2147483647 ==> tr.Code == err_status_code(err) && (valid_utf8(err_status_msg(err)) ==> tr.Message == err_status_msg(err)) && tr.Details == err_status_details(err)
 //@   assert_call[C02] writeProtoMessage : the_status_message_can_be_carried_by_the_frame: valid_utf8(tr.Message)
 //@   assert_call[C04,C02] writeProtoMessage : a_handlers_context_error_has_the_matching_code: (err == context.DeadlineExceeded ==> tr.Code == 4) && (err == context.Canceled ==> tr.Code == 1)
 //@   assert_call[C03] writeProtoMessage : trailer_metadata_is_what_the_handler_set: tr.Metadata == lastresult(asTrailerProto) && lastarg(asTrailerProto, 0) == lastresult("metadata.Join") && lastarg("metadata.Join", 0) == str.tr
